@@ -521,10 +521,75 @@ class Replayer:
             if res != want:
                 if act == "Estimate":
                     self.attribute(w, tr, walk, n, res, want, exc)
+                elif exc is None and self.numerically_equal(w, arg["name"], t["atol"]):
+                    # the digests round to 1e-10: last-bit differences (another summation order when a cached table is
+                    # used) flip a digit when a value sits on a rounding boundary.  Not a dependence on history.
+                    chk.notes["digest_rounding_flips"] = chk.notes.get("digest_rounding_flips", 0) + 1
+                    return True
                 else:
                     chk.violation("history_dependent:%s" % arg["name"],
                                   "%s gives %s here but %s in a fresh world (state %s)%s" % (arg["name"], res, want, tr["from"], " exception %r" % exc if exc else ""),
                                   dict(walk=_slim(walk), step=n))
+                return False
+        return True
+
+    def numerically_equal(self, w, name, atol, tol=1e-9):
+        """re-evaluates the pure action in the world under test and in a fresh world and compares the numbers."""
+        def flat(o, out):
+            if isinstance(o, (list, tuple)):
+                for x in o:
+                    flat(x, out)
+            elif isinstance(o, dict):
+                for k in sorted(o, key=str):
+                    flat(o[k], out)
+            elif isinstance(o, (bool, np.bool_, str)) or o is None:
+                out.append(("tag", o))
+            elif isinstance(o, (int, float, complex, np.number)):
+                out.append(("num", complex(o)))
+            elif isinstance(o, np.ndarray) or sp.issparse(o):
+                a = np.asarray(o.toarray() if sp.issparse(o) else o)
+                out.append(("shape", a.shape))
+                out.extend(("num", complex(x)) for x in a.ravel())
+            elif hasattr(o, "vecs"):
+                out.append(("tag", type(o).__name__))
+                flat(list(o.vecs), out)
+            elif hasattr(o, "hss"):
+                out.append(("tag", type(o).__name__))
+                flat(list(o.hss), out)
+                flat(tuple(o.shape), out)
+            elif hasattr(o, "hs"):
+                out.append(("tag", type(o).__name__))
+                flat(np.asarray(o.hs), out)
+            elif hasattr(o, "vec"):
+                out.append(("tag", type(o).__name__))
+                flat(np.asarray(o.vec), out)
+            elif hasattr(o, "states") and hasattr(o, "prob_dist"):
+                flat(list(o.states), out)
+                flat(o.prob_dist, out)
+            elif hasattr(o, "ps"):
+                flat(np.asarray(o.ps), out)
+                flat(tuple(o.shape), out)
+            else:
+                raise core.MachineryError("cannot compare %r numerically" % type(o))
+        import scipy.sparse as sp
+        try:
+            here, ref = [], []
+            flat(w.pure(name), here)
+            set_atol(False)
+            w2 = World(self.family)
+            set_atol(atol == "changed")
+            flat(w2.pure(name), ref)
+        except Exception:
+            return False
+        if len(here) != len(ref):
+            return False
+        for (ka, a), (kb, b) in zip(here, ref):
+            if ka != kb:
+                return False
+            if ka == "num":
+                if abs(a - b) > tol * (1 + abs(b)):
+                    return False
+            elif a != b:
                 return False
         return True
 
